@@ -55,7 +55,7 @@ HTML_BLOCKS = [
     (7, ['</custom>']), (6, ['<p align="x">', '*not emphasis*']), (2, ['<!-- one line -->']), (1, ['<style>p{}</style>']),
     (1, ['<textarea>', '', '</textarea>']), (6, ['<hr />']),
     # tag names are matched in any case
-    (1, ['<pre\tclass="x">', '', 'a', '</pre>']), (1, ['<pre>', 'a', '', 'b </script> c']), (1, ['<style>', '', 'p{}', '</TEXTAREA>']), (1, ['<SCRIPT>', '', 'a', '</SCRIPT>']), (1, ['<Pre>', '', '*x*', '</PRE>']), (6, ['<DIV>', 'y', '</DIV>']), (1, ['<STYLE>', '', 'p{}', '</style>']),
+    (1, ['<pre\tclass="x">', '', 'a', '</pre>']), (1, ['<pre>', 'a', '', 'b </script></pre> c']), (1, ['<style>', '', 'p{}', '</TEXTAREA></style>']), (1, ['<SCRIPT>', '', 'a', '</SCRIPT>']), (1, ['<Pre>', '', '*x*', '</PRE>']), (6, ['<DIV>', 'y', '</DIV>']), (1, ['<STYLE>', '', 'p{}', '</style>']),
 ]
 MARKER_LIKE = ['> q', '# h', '- l', '+ p', '1. x', '2) y', '***', '---', '[a]: b', '===', '>']
 EXACT_LABELS = ['a\\]b', 'x\\\ny', 'p\\[q\\]', 'two\nlines', 'back\\\\slash', 'foo\\] bar\nbaz', 'm\\[n\no\\]']
